@@ -36,6 +36,9 @@ pub struct QueueCase {
     pub cap: Option<usize>,
     /// configure an error handler on the queuing sink
     pub handler: bool,
+    /// call with_error_handler before with_capacity on the builder (the order must not matter)
+    #[serde(default)]
+    pub handler_first: bool,
     pub ops: Vec<QOp>,
 }
 
@@ -124,6 +127,19 @@ impl Actor {
     where
         S: MetricSink + Sync + Send + std::panic::RefUnwindSafe + 'static,
     {
+        Self::spawn_ordered(gate, cap, handler, false, make_sink)
+    }
+
+    pub fn spawn_ordered<S>(
+        gate: Arc<Gate>,
+        cap: Option<usize>,
+        handler: bool,
+        handler_first: bool,
+        make_sink: impl FnOnce() -> S + Send + 'static,
+    ) -> Actor
+    where
+        S: MetricSink + Sync + Send + std::panic::RefUnwindSafe + 'static,
+    {
         let (ctx, crx) = bounded::<Cmd>(4);
         let (rtx, rrx) = bounded::<Reply>(4);
         let (idtx, idrx) = bounded::<ThreadId>(1);
@@ -136,10 +152,14 @@ impl Actor {
                 let _ = idtx.send(me);
                 let built = util::catch(|| {
                     let mut b = QueuingMetricSink::builder();
+                    if handler && handler_first {
+                        let hg = HandlerGate(g2.clone());
+                        b = b.with_error_handler(move |e| hg.0.log_handler(&e));
+                    }
                     if let Some(c) = cap {
                         b = b.with_capacity(c);
                     }
-                    if handler {
+                    if handler && !handler_first {
                         let hg = HandlerGate(g2.clone());
                         b = b.with_error_handler(move |e| hg.0.log_handler(&e));
                     }
@@ -243,7 +263,7 @@ pub fn run_case(case: &QueueCase, ctx: &Ctx) -> Run {
         };
     }
     let g2 = gate.clone();
-    let actor = Actor::spawn(gate.clone(), case.cap, case.handler, move || GatedSink { gate: g2 });
+    let actor = Actor::spawn_ordered(gate.clone(), case.cap, case.handler, case.handler_first, move || GatedSink { gate: g2 });
     match actor.rx.recv_timeout(w) {
         Ok(Reply::Done) => {}
         Ok(Reply::Panicked(p)) => {
@@ -851,8 +871,13 @@ pub fn queue_case(g: QGen) -> BoxedStrategy<QueueCase> {
         g.step_w => step_out(g.err_w, g.panic_w).prop_map(QOp::Step),
         g.flush_w => (any::<u16>(), prop_oneof![Just(StepOut::Ok), (0u8..12).prop_map(StepOut::Err)]).prop_map(|(h, o)| QOp::Flush(h, o)),
     ];
-    (cap_strategy(), prop::bool::weighted(g.handler_p), prop::collection::vec(op, 0..=g.max_ops))
-        .prop_map(|(cap, handler, ops)| QueueCase { cap, handler, ops })
+    (cap_strategy(), prop::bool::weighted(g.handler_p), any::<bool>(), prop::collection::vec(op, 0..=g.max_ops))
+        .prop_map(|(cap, handler, handler_first, ops)| QueueCase {
+            cap,
+            handler,
+            handler_first,
+            ops,
+        })
         .boxed()
 }
 
@@ -885,7 +910,7 @@ pub fn ending_case() -> BoxedStrategy<QueueCase> {
             for o in outs {
                 ops.push(QOp::Step(o));
             }
-            Just(QueueCase { cap, handler, ops })
+            Just(QueueCase { cap, handler, handler_first: under == 1, ops })
         })
         .boxed()
 }
@@ -920,6 +945,7 @@ pub fn ending_enumeration(max_cap: usize, outcomes: &[StepOut]) -> Vec<QueueCase
                         out.push(QueueCase {
                             cap,
                             handler,
+                            handler_first: false,
                             ops: ops.clone(),
                         });
                     }
